@@ -82,6 +82,28 @@ def expectedDeliveries (has : Cb → Bool) : Nat → List TEv → List (Nat × C
   | t, e :: rest =>
     if isTerminator e.ev then [] else deliver has (t + e.dt) e.ev ++ expectedDeliveries has (t + e.dt) rest
 
+/-- the callback events a list of due callbacks produces under a plan: each one fires once, in order,
+    at its time; one that raises is followed at once by `on_error(its exception)` (when on_error is set)
+    and nothing is lost.  `cnt` = invocations so far (the plan is indexed by invocation). -/
+def reportTrace (has : Cb → Bool) (plan : Cb → List Act) : (Cb → Nat) → List (Nat × Cb × List Arg) → Trace
+  | _, [] => []
+  | cnt, (t, cb, args) :: rest =>
+    let k := cnt cb
+    let cnt1 : Cb → Nat := fun x => if x = cb then cnt x + 1 else cnt x
+    if actOf plan cb k = .raise && has .onError then
+      (t, .cb cb args) :: (t, .cb .onError [.exn (.user cb k)]) ::
+        reportTrace has plan (fun x => if x = .onError then cnt1 x + 1 else cnt1 x) rest
+    else (t, .cb cb args) :: reportTrace has plan cnt1 rest
+
+/-- **the C13 trace**: what the callbacks of one connection established at `t0` must be while the legal
+    traffic `evs` arrives: the opening callback first, then every event's callbacks at its arrival time. -/
+def expectedConn (has : Cb → Bool) (plan : Cb → List Act) (cnt : Cb → Nat) (t0 : Nat) (first : Cb)
+    (evs : List TEv) : Trace :=
+  reportTrace has plan cnt ((if has first then [(t0, first, [])] else []) ++ expectedDeliveries has t0 evs)
+
+/-- the callback events of a trace -/
+def cbOnly (tr : Trace) : Trace := tr.filter fun te => match te.2 with | .cb _ _ => true | _ => false
+
 def isDelivery : Cb → Bool
   | .onData | .onMessage | .onPing | .onPong => true
   | _ => false
